@@ -353,8 +353,8 @@ fn check_c10(tier: &str, seed: u64, workers: usize, args: &[String]) -> i32 {
                 continue;
             }
             n_viol += 1;
-            let path = format!("{}/replays/C10-{}-{}.json", VERIF_DIR, seed, k);
-            let _ = std::fs::create_dir_all(format!("{}/replays", VERIF_DIR));
+            let path = format!("{}/replays/C10-{}-{}.json", verif_dir(), seed, k);
+            let _ = std::fs::create_dir_all(format!("{}/replays", verif_dir()));
             let j = serde_json::json!({"property": "C10", "engine": "faultio", "class": class, "violation": detail, "seed": seed, "run": k, "doubles": doubles, "kind": "storage", "input": ""});
             let _ = std::fs::write(&path, serde_json::to_string_pretty(&j).unwrap());
             println!("violation: property=C10 class={} run={}\n  {}", class, k, detail);
@@ -386,8 +386,8 @@ fn check_c10(tier: &str, seed: u64, workers: usize, args: &[String]) -> i32 {
         "assumptions": ["the harness's copy of the checksum input alphabet and its first group equals BIP380's", "sampling for 2 and 3-4 substitutions; exhaustive only for single substitutions on a subset of strings"],
         "wall_s": wall, "violations": n_viol
     });
-    let _ = std::fs::create_dir_all(format!("{}/evidence", VERIF_DIR));
-    let _ = std::fs::write(format!("{}/evidence/C10.json", VERIF_DIR), serde_json::to_string_pretty(&ev).unwrap());
+    let _ = std::fs::create_dir_all(format!("{}/evidence", verif_dir()));
+    let _ = std::fs::write(format!("{}/evidence/C10.json", verif_dir()), serde_json::to_string_pretty(&ev).unwrap());
     println!("C10: {} runs, {} objects, {} round trips, {} corrupted parses, {:.1}s, exit {}", runs, tot.objects, tot.roundtrips, tot.corrupted_parses, wall, exit);
     exit
 }
@@ -473,8 +473,8 @@ fn check_c11(tier: &str, seed: u64, workers: usize, args: &[String]) -> i32 {
         if n_viol > 5 {
             continue;
         }
-        let path = format!("{}/replays/C11-{}-{}.json", VERIF_DIR, seed, shard);
-        let _ = std::fs::create_dir_all(format!("{}/replays", VERIF_DIR));
+        let path = format!("{}/replays/C11-{}-{}.json", verif_dir(), seed, shard);
+        let _ = std::fs::create_dir_all(format!("{}/replays", verif_dir()));
         let j = serde_json::json!({"property": "C11", "engine": "faultio", "class": class, "violation": what, "seed": seed, "shard": shard, "case": case_hex});
         let _ = std::fs::write(&path, serde_json::to_string_pretty(&j).unwrap());
         println!("violation: property=C11 class={} shard={}\n  {}", class, shard, what);
@@ -529,8 +529,8 @@ fn check_c11(tier: &str, seed: u64, workers: usize, args: &[String]) -> i32 {
         "assumptions": ["robustness testing under the fault-injection half of the family; inputs are those a storage or transport fault, a stale or a hostile peer can derive from valid artefacts, plus structured garbage", "debug assertions and overflow checks are enabled in the harness build, as in the repository's own test profile"],
         "wall_s": wall, "violations": n_viol
     });
-    let _ = std::fs::create_dir_all(format!("{}/evidence", VERIF_DIR));
-    let _ = std::fs::write(format!("{}/evidence/C11.json", VERIF_DIR), serde_json::to_string_pretty(&ev).unwrap());
+    let _ = std::fs::create_dir_all(format!("{}/evidence", verif_dir()));
+    let _ = std::fs::write(format!("{}/evidence/C11.json", verif_dir()), serde_json::to_string_pretty(&ev).unwrap());
     println!("C11: {} wire cases in {} shards, {} engine-A runs, {:.1}s, exit {}", cases, shards, agg.runs, wall, exit);
     exit
 }
